@@ -300,3 +300,77 @@ func VH_C05_more() {
 	}
 	vhC05Post(root, rows, tch, acked)
 }
+
+// VH_C05_first_access: "detected or harmless" whatever the new process calls
+// first.  The schema is loaded lazily by the first call that names the
+// collection, and only that call sees the verdict of the load: whichever
+// public entry point comes first, either it reports the corruption class, or
+// the directory is consistent (Control succeeds) — a crash may not go
+// unnoticed because the first call happened to be Exist or Count.
+func VH_C05_first_access() {
+	cfg := vhCfgs[[]int{0, 2}[vChoice("cfg", vBound("CFG", 2))]]
+	db, root := vhOpenDB(cfg)
+	var rows []vhRow
+	for k := 0; k < 2; k++ {
+		o := vhNewObj()
+		vAssert("C05.first.pre", db.InsertOrUpdate(o) == nil)
+		rows = append(rows, vhRow{o.UUID(), *o})
+	}
+	op := vChoice("op", 3)
+	crashAt := vLen("crashat", 0, vBound("K", 7))
+	n1 := &vObj{A: vInt64("newA"), S: "s", U: 77}
+	crashed := vCrashRun(func() {
+		vFsCrashAfter(crashAt)
+		switch op {
+		case 0:
+			n1.Initialize("11111111-1111-4111-8111-111111111111")
+			db.InsertOrUpdate(n1)
+		case 1:
+			d := &vObj{}
+			d.Initialize(rows[0].uuid)
+			db.Delete(d)
+		case 2:
+			db.DeleteAll(&vObj{})
+		}
+	})
+	if !crashed {
+		return
+	}
+	db2 := Open(root)
+	var first error
+	probe := &vObj{}
+	probe.Initialize(rows[1].uuid)
+	switch vChoice("first", 11) {
+	case 0:
+		_, first = db2.Schema(&vObj{})
+	case 1:
+		_, first = db2.Exist(probe)
+	case 2:
+		_, first = db2.Count(&vObj{})
+	case 3:
+		_, first = db2.GetByUUID(&vObj{}, rows[1].uuid)
+	case 4:
+		_, first = db2.All(&vObj{})
+	case 5:
+		s := db2.Search(&vObj{}, "A", ">=", int64(0))
+		first = s.Err()
+	case 6:
+		first = db2.Create(&vObj{}, vhSchema(cfg))
+	case 7:
+		first = db2.InsertOrUpdate(&vObj{A: 5, S: "s", U: 1234})
+	case 8:
+		first = db2.Delete(probe)
+	case 9:
+		var as []int64
+		first = db2.AssignIndex(&vObj{}, "A", &as)
+	case 10:
+		_, first = db2.InsertOrUpdateMany(&vObj{A: 5, S: "s", U: 1234})
+	}
+	reported := IsIndexCorrupted(first)
+	second := error(nil)
+	if !reported {
+		// nothing was said: then there is nothing to say
+		second = db2.Control()
+	}
+	vAssert("C05.first.detected_or_harmless", reported || second == nil)
+}
